@@ -193,7 +193,10 @@ def parserLoop (p : Pump) : List RawItem → Step × Pump × List RawItem
     let ob : Except Breach (Option Enf) :=
       match p.budget with
       | none => .ok none
-      | some enf => (enf.observe raw).map some
+      | some enf =>
+        match raw with
+        | .alias _ => enf.observeAliasReplayed.map some
+        | _ => (enf.observe raw).map some
     match ob with
     | .error b => (.error (.budget b loc), p, rest)
     | .ok bud =>
@@ -243,7 +246,8 @@ def parserLoop (p : Pump) : List RawItem → Step × Pump × List RawItem
         else if p.recStack.any (fun f => f.id == id) then
           if p.recursiveInProgress.contains id then
             let ev := Ev.scalar [] 4 none .plain id loc
-            (.event ev, { p with recStack := recordAll p.recStack ev, lastLoc := loc, producedAny := true }, rest)
+            (.event ev, { p with budget := p.budget.map Enf.aliasOccupiesPosition, recStack := recordAll p.recStack ev,
+                                 lastLoc := loc, producedAny := true }, rest)
           else (.error (.recursiveRef loc), p, rest)
         else
           match lookupAnchor p.anchors id with
